@@ -5,6 +5,7 @@ package main
 
 import (
 	"bytes"
+	"context"
 	"fmt"
 	"go/ast"
 	"go/printer"
@@ -59,12 +60,16 @@ type Verifier struct {
 	regexUsed       map[string]string
 	allFns          map[*ssa.Function]bool
 	fieldInvs       map[string]*FieldInv // heap key -> invariant
+	autoFrameOff    map[string]bool
+	scratch         *Enc
+	autoFrameKept   map[string]bool
 }
 
 type writeSet struct {
 	keys   map[string]bool
 	all    bool
-	ghosts bool
+	ghosts bool // sends (ghost sendcount)
+	closes bool // close / make(chan) (ghost closed)
 }
 
 func loadVerifier(repoDir string) (*Verifier, error) {
@@ -75,6 +80,8 @@ func loadVerifier(repoDir string) (*Verifier, error) {
 		uncontracted: map[string]bool{}, calledContracts: map[string]bool{}, trustedUsed: map[string]bool{}, callsiteHits: map[string]int{},
 		fnByKey: map[string]*ssa.Function{}, writesCache: map[*ssa.Function]*writeSet{}, writesBusy: map[*ssa.Function]bool{}, closedCheck: map[string]bool{}, regexUsed: map[string]string{}}
 	v.refLangs = referenceLanguages()
+	v.autoFrameOff = map[string]bool{}
+	v.autoFrameKept = map[string]bool{}
 	cfg := &packages.Config{Mode: packages.LoadAllSyntax, Dir: repoDir, BuildFlags: []string{"-tags=verif"}}
 	cfg.Env = append(os.Environ(), "PATH=/opt/veriftools/go1.26.8/bin:"+os.Getenv("PATH"), "GOTOOLCHAIN=local", "GOFLAGS=-mod=mod", "GOPROXY=off", "GOSUMDB=off")
 	pkgs, err := packages.Load(cfg, "./wamp/...", "./router/...", "./transport/...", "./client/...", "./stdlog/...")
@@ -306,12 +313,15 @@ func (v *Verifier) funcWriteSet(e *Enc, fn *ssa.Function) *writeSet {
 	}
 	for _, b := range fn.Blocks {
 		for _, ins := range b.Instrs {
-			k, a, g := v.instrWrites(e, ins)
+			k, a, g := v.instrWrites(e, ins, nil)
 			for _, kk := range k {
 				ws.keys[kk] = true
 			}
 			ws.all = ws.all || a
 			ws.ghosts = ws.ghosts || g
+			if v.instrCloses(ins) {
+				ws.closes = true
+			}
 		}
 	}
 	delete(v.writesBusy, fn)
@@ -319,7 +329,45 @@ func (v *Verifier) funcWriteSet(e *Enc, fn *ssa.Function) *writeSet {
 	return ws
 }
 
-func (v *Verifier) instrWrites(e *Enc, ins ssa.Instruction) (keys []string, all bool, ghosts bool) {
+func (v *Verifier) scratchEnc() *Enc {
+	if v.scratch == nil {
+		v.scratch = &Enc{v: v, q: newQuery(v.u), u: v.u, oblCount: map[string]int{}}
+	}
+	return v.scratch
+}
+
+// instrCloses: does the instruction itself touch the ghost closed bits?
+func (v *Verifier) instrCloses(ins ssa.Instruction) bool {
+	switch x := ins.(type) {
+	case *ssa.MakeChan:
+		return true
+	case *ssa.Call:
+		if b, ok := x.Common().Value.(*ssa.Builtin); ok && b.Name() == "close" {
+			return true
+		}
+		if fn := x.Common().StaticCallee(); fn != nil && fn.Blocks != nil && (v.inRepo(fn) || fn.Parent() != nil) {
+			if con := v.db.Funcs[funcKey(fn)]; con != nil && con.HasMod && !con.Inline {
+				for _, m := range con.Modifies {
+					if strings.TrimSpace(m) == "ghost closed" || strings.TrimSpace(m) == "everything" {
+						return true
+					}
+				}
+				return false
+			}
+			if v.writesBusy[fn] {
+				return true
+			}
+			return v.funcWriteSet(v.scratchEnc(), fn).closes
+		}
+	case *ssa.Defer:
+		if b, ok := x.Common().Value.(*ssa.Builtin); ok && b.Name() == "close" {
+			return true
+		}
+	}
+	return false
+}
+
+func (v *Verifier) instrWrites(e *Enc, ins ssa.Instruction, fr *frame) (keys []string, all bool, ghosts bool) {
 	switch x := ins.(type) {
 	case *ssa.Store:
 		return v.addrWrites(e, x.Addr), false, false
@@ -338,11 +386,11 @@ func (v *Verifier) instrWrites(e *Enc, ins ssa.Instruction) (keys []string, all 
 			return nil, true, true
 		}
 	case *ssa.MakeChan:
-		return nil, false, true
+		return nil, false, false
 	case *ssa.Call:
-		return v.callWrites(e, x.Common())
+		return v.callWrites(e, x.Common(), fr)
 	case *ssa.Defer:
-		return v.callWrites(e, x.Common())
+		return v.callWrites(e, x.Common(), fr)
 	case *ssa.Alloc, *ssa.MakeMap, *ssa.MakeSlice, *ssa.MakeClosure:
 		// allocation initialises fresh cells only; the keys change but no
 		// pre-existing location does. Still listed so loops re-havoc them.
@@ -420,7 +468,7 @@ func rootAddrKeys(v *Verifier, e *Enc, p ssa.Value) []string {
 	return nil
 }
 
-func (v *Verifier) callWrites(e *Enc, c *ssa.CallCommon) (keys []string, all bool, ghosts bool) {
+func (v *Verifier) callWrites(e *Enc, c *ssa.CallCommon, fr *frame) (keys []string, all bool, ghosts bool) {
 	if b, ok := c.Value.(*ssa.Builtin); ok && !c.IsInvoke() {
 		switch b.Name() {
 		case "append":
@@ -431,7 +479,7 @@ func (v *Verifier) callWrites(e *Enc, c *ssa.CallCommon) (keys []string, all boo
 			d, vv, l := e.mapKeys(c.Args[0].Type())
 			return []string{d, vv, l}, false, false
 		case "close":
-			return nil, false, true
+			return nil, false, false
 		case "clear":
 			return nil, true, true
 		}
@@ -454,7 +502,12 @@ func (v *Verifier) callWrites(e *Enc, c *ssa.CallCommon) (keys []string, all boo
 	if fn == nil {
 		if mc, ok := c.Value.(*ssa.MakeClosure); ok {
 			fn = mc.Fn.(*ssa.Function)
-		} else {
+		} else if fr != nil {
+			if val, ok := fr.vals[c.Value]; ok && val.clo != nil {
+				fn = val.clo.fn
+			}
+		}
+		if fn == nil {
 			return nil, true, true
 		}
 	}
@@ -462,7 +515,29 @@ func (v *Verifier) callWrites(e *Enc, c *ssa.CallCommon) (keys []string, all boo
 	if w, ok := trustedModelWrites[key]; ok {
 		return w(e, c), false, false
 	}
-	if _, ok := trustedModels[key]; ok {
+	if strings.HasPrefix(key, "maps.Copy[") {
+		d, vv, l := e.mapKeys(c.Args[0].Type())
+		return []string{d, vv, l}, false, false
+	}
+	if strings.HasPrefix(key, "slices.Clone[") {
+		return []string{e.elemKey(c.Args[0].Type().Underlying().(*types.Slice).Elem())}, false, false
+	}
+	if strings.HasPrefix(key, "(*github.com/gammazero/deque.Deque[") {
+		if fn.Name() == "PushBack" || fn.Name() == "PopFront" {
+			var out []string
+			for k := range globalHeapSort {
+				if k == "DQL" || strings.HasPrefix(k, "DQE:") {
+					out = append(out, k)
+				}
+			}
+			if len(out) == 0 {
+				return nil, true, false
+			}
+			return out, false, false
+		}
+		return nil, false, false
+	}
+	if _, _, ok := lookupModel2(key); ok {
 		return nil, false, false
 	}
 	if con := v.db.Funcs[key]; con != nil && con.HasMod && !con.Inline {
@@ -521,7 +596,7 @@ func (v *Verifier) contractWriteKeys(e *Enc, con *Contract, fn *ssa.Function) (k
 	for _, t := range targets {
 		keys = append(keys, t.key)
 		// make sure the key is declared in the caller's query
-		e.q.heapSort[t.key] = scratch.heapSort[t.key]
+		e.q.keySort(t.key)
 	}
 	return keys, all, len(gs) > 0 || all
 }
@@ -549,6 +624,12 @@ func (v *Verifier) prelude() string {
 			continue
 		}
 		fmt.Fprintf(&b, "(declare-fun %s %s)\n", name, sig)
+	}
+	// pseudo-references of embedded structs: negative, injective, rooted
+	for _, name := range v.funOrder {
+		if strings.HasPrefix(name, "fa_") {
+			fmt.Fprintf(&b, "(assert (forall ((x Int)) (! (and (< (%[1]s x) 0) (= (inv_%[1]s (%[1]s x)) x) (= (broot (%[1]s x)) (ite (>= x 0) x (broot x)))) :pattern ((%[1]s x)))))\n", name)
+		}
 	}
 	// implements-facts for known tags
 	var ifn []string
@@ -590,6 +671,14 @@ func (v *Verifier) needSpecFun(sf *SpecFunc, env *SpecEnv) {
 		scope[p.Name] = Value{term: name, typ: t}
 	}
 	rt := env.resolveType(sf.Result)
+	if sf.Uninterp {
+		var sorts []string
+		for _, p := range sf.Params {
+			sorts = append(sorts, e.u.sortOf(env.resolveType(p.Type)))
+		}
+		v.specDefs = append(v.specDefs, fmt.Sprintf("(declare-fun spec_%s (%s) %s)", sf.Name, strings.Join(sorts, " "), e.u.sortOf(rt)))
+		return
+	}
 	n := *env
 	n.vars = scope
 	n.bound = nil
@@ -618,11 +707,74 @@ type Unit struct {
 	Err      string
 	Inputs   []inputVar
 	Enc      *Enc
+	AutoObls []*Obligation
 }
 
 // verifyFunc generates the obligations of one function. con may be nil
 // (safety sweep under precondition true).
-func (v *Verifier) verifyFunc(fn *ssa.Function, con *Contract) (unit *Unit) {
+func (v *Verifier) verifyFunc(fn *ssa.Function, con *Contract) *Unit {
+	// Houdini over the automatic loop-frame candidates: encode, try to
+	// prove each candidate at its back edges, drop the ones that fail and
+	// re-encode until all remaining candidates are inductive.
+	for round := 0; ; round++ {
+		nerr := len(v.specErrors)
+		u := v.verifyFuncOnce(fn, con)
+		if len(u.AutoObls) == 0 || u.Err != "" || round >= 6 {
+			if round >= 6 {
+				// give up on the rest
+				for _, o := range u.AutoObls {
+					v.autoFrameOff[o.Expect] = true
+				}
+				v.specErrors = v.specErrors[:nerr]
+				return v.verifyFuncOnce(fn, con)
+			}
+			return u
+		}
+		dir, err := os.MkdirTemp("", "govc-houdini-")
+		if err != nil {
+			return u
+		}
+		failed := 0
+		type res struct {
+			o  *Obligation
+			ok bool
+		}
+		ch := make(chan res, len(u.AutoObls))
+		sem := make(chan struct{}, 12)
+		for i, o := range u.AutoObls {
+			o.Name = fmt.Sprintf("autoframe%d", i)
+			sem <- struct{}{}
+			go func(o *Obligation) {
+				defer func() { <-sem }()
+				exp := o.Expect
+				o.Expect = ""
+				p, _ := v.writeQuery(u, o, dir, "ALL", false)
+				o.Expect = exp
+				r := runSolver(context.Background(), solvers[0], p, 5)
+				ch <- res{o, r.Verdict == "unsat"}
+			}(o)
+		}
+		for range u.AutoObls {
+			r := <-ch
+			if !r.ok {
+				if !v.autoFrameOff[r.o.Expect] {
+					failed++
+				}
+				v.autoFrameOff[r.o.Expect] = true
+			}
+		}
+		os.RemoveAll(dir)
+		if failed == 0 {
+			for _, o := range u.AutoObls {
+				v.autoFrameKept[o.Expect] = true
+			}
+			return u
+		}
+		v.specErrors = v.specErrors[:nerr]
+	}
+}
+
+func (v *Verifier) verifyFuncOnce(fn *ssa.Function, con *Contract) (unit *Unit) {
 	unit = &Unit{Fn: fn, Contract: con}
 	q := newQuery(v.u)
 	unit.Q = q
@@ -636,6 +788,7 @@ func (v *Verifier) verifyFunc(fn *ssa.Function, con *Contract) (unit *Unit) {
 			}
 		}
 		unit.Obls = e.obls
+		unit.AutoObls = e.autoObls
 		unit.Notes = q.notes
 		unit.Inputs = e.inputs
 	}()
@@ -668,16 +821,39 @@ func (v *Verifier) verifyFunc(fn *ssa.Function, con *Contract) (unit *Unit) {
 	}
 	if con != nil {
 		for _, r := range con.Requires {
-			st.assume(e.evalClause(pre, r))
+			st.assume(e.evalClauseAssume(pre, r))
 		}
 		for _, r := range con.Assumes {
-			st.assume(e.evalClause(pre, r))
+			st.assume(e.evalClauseAssume(pre, r))
 			v.useTrusted("assume:" + con.Key + ":" + r.Label)
 		}
 	}
 	entry := st.clone()
 	e.entry = entry
 	fr.entrySt = entry
+	e.frameAllowed = map[string][]string{}
+	e.frameWhole = map[string]bool{}
+	if con != nil && con.HasMod {
+		func() {
+			defer func() {
+				if r := recover(); r != nil {
+					if _, ok := r.(specError); !ok {
+						panic(r)
+					}
+				}
+			}()
+			env := *pre
+			env.cur = entry
+			targets, _, _ := e.modTargets(&env, con)
+			for _, t := range targets {
+				if t.idx == "" {
+					e.frameWhole[t.key] = true
+				} else {
+					e.frameAllowed[t.key] = append(e.frameAllowed[t.key], t.idx)
+				}
+			}
+		}()
+	}
 	// vacuity: precondition must be satisfiable
 	unit.Covers = append(unit.Covers, &Obligation{Name: funcDisplayName(fn) + "#cover[requires]", Kind: "cover", Func: funcDisplayName(fn), reach: entry.reach, cond: "false", NDecls: len(q.decls), Expect: "sat"})
 	out, res := e.runBody(fr, st)
@@ -782,7 +958,8 @@ func (e *Enc) frameCheck(pre *SpecEnv, entry, out *State, con *Contract, fn *ssa
 		for _, idx := range allowed[k] {
 			ex = append(ex, "(not (= "+r+" "+idx+"))")
 		}
-		cond := fmt.Sprintf("(forall ((%[1]s Int)) (=> %[2]s (= (select %[3]s %[1]s) (select %[4]s %[1]s))))", r, and(append(ex, "(< "+r+" "+entry.ap+")")...), a, b)
+		e.v.declFun("broot", "(Int) Int")
+		cond := fmt.Sprintf("(forall ((%[1]s Int)) (=> %[2]s (= (select %[3]s %[1]s) (select %[4]s %[1]s))))", r, and(append(ex, "(< "+rootOf(r)+" "+entry.ap+")")...), a, b)
 		e.oblige(out, "frame", k, cond, fn.Pos())
 	}
 	gset := map[string]bool{}
